@@ -16,6 +16,7 @@ runs over the same world end one in `Ok` with a valid solution and the other in 
 -/
 import PubgrubProofs.StoreInvariant
 import PubgrubProofs.RangeAnyOrder
+import PubgrubProofs.Decides
 
 namespace Pubgrub.C02
 open Pubgrub
@@ -55,5 +56,61 @@ theorem C02_range_noSolution_sound (W : World P (Range V) V M) (hW : W.RangesWF)
   range_noSolution_sound W hW debug fuel root rv s tree h
 
 end AnyOrder
+
+/-! ### the "equivalently" clause in full: the result is decided by the registry alone
+
+`C02_resolve_returns`: over a finite registry, within `N` provider calls `resolve` returns (first final
+request of the trace) and what it returns is `Ok(sel)` with `sel` a solution, or `NoSolution` and no
+solution exists (`DecidedBy`; the third alternative is the model's `protocolError` for an ill-typed
+answer).  Hence a solution is found iff one exists, whatever the strategy.  `C02_strategy_independent`:
+two well-behaved runs over one registry never return one `Ok` and the other `NoSolution`. -/
+section Decides
+variable [CanonicalEmpty S V]
+
+theorem C02_resolve_returns (W : World P S V M) (hW : W.SetsValid) (root : P) (rv : V)
+    (fw : FiniteWorld W root rv) (debug : Bool) :
+    ∃ N fuel0 : Nat, ∀ fuel, fuel0 ≤ fuel → ∀ as : List (Answer P S V M Pr E), N ≤ as.length →
+      WellBehavedRun W debug fuel root rv as →
+      ∃ k, k ≤ N ∧
+        (Solver.after (Solver.start debug fuel root rv) (as.take k)).2.isFinal = true ∧
+        (∀ j, j < k → (Solver.after (Solver.start debug fuel root rv) (as.take j)).2.isFinal = false) ∧
+        DecidedBy W root rv (Solver.after (Solver.start debug fuel root rv) (as.take k)).2 :=
+  by apply resolve_returns (Pr := Pr) (E := E) <;> assumption
+
+end Decides
+
+theorem C02_strategy_independent (W : World P S V M) (hW : W.SetsValid) (root : P) (rv : V)
+    (debug debug' : Bool) (fuel fuel' : Nat) (s s' : SolverState P S V M Pr) (sel : List (P × V))
+    (t : DerivationTree P S V M)
+    (h : ReachableWB (E := E) W debug fuel root rv (s, .solution sel))
+    (h' : ReachableWB (E := E) W debug' fuel' root rv (s', .noSolution t)) : False :=
+  noSolution_sound W hW debug' fuel' root rv s' t (c04_reachable_of_wb W debug' fuel' root rv _ h')
+    ⟨_, (solution_valid W hW debug fuel root rv s sel h).1⟩
+
+section AnyOrderDecides
+variable {P V M Pr E : Type} [DecidableEq P] [LinearOrder V] [LE Pr] [DecidableLE Pr]
+
+theorem C02_range_resolve_returns (W : World P (Range V) V M) (hW : W.RangesWF) (root : P) (rv : V)
+    (fr : FiniteRegistry W root) (debug : Bool) :
+    ∃ N fuel0 : Nat, ∀ fuel, fuel0 ≤ fuel → ∀ as : List (Answer P (Range V) V M Pr E), N ≤ as.length →
+      WellBehavedRun W debug fuel root rv as →
+      ∃ k, k ≤ N ∧
+        (Solver.after (Solver.start debug fuel root rv) (as.take k)).2.isFinal = true ∧
+        (∀ j, j < k → (Solver.after (Solver.start debug fuel root rv) (as.take j)).2.isFinal = false) ∧
+        ((∃ sel, (Solver.after (Solver.start debug fuel root rv) (as.take k)).2 = .solution sel ∧
+            IsSolution W root rv (fun p => SmallMap.get sel p)) ∨
+         ((∃ t, (Solver.after (Solver.start debug fuel root rv) (as.take k)).2 = .noSolution t) ∧
+            ¬ ∃ σ : P → Option V, IsSolution W root rv σ) ∨
+         (∃ m, (Solver.after (Solver.start debug fuel root rv) (as.take k)).2 = .protocolError m)) :=
+  by apply range_resolve_returns (Pr := Pr) (E := E) <;> assumption
+
+theorem C02_range_strategy_independent (W : World P (Range V) V M) (hW : W.RangesWF) (root : P) (rv : V)
+    (debug debug' : Bool) (fuel fuel' : Nat) (s s' : SolverState P (Range V) V M Pr) (sel : List (P × V))
+    (t : DerivationTree P (Range V) V M)
+    (h : ReachableWB (E := E) W debug fuel root rv (s, .solution sel))
+    (h' : ReachableWB (E := E) W debug' fuel' root rv (s', .noSolution t)) : False :=
+  range_strategy_independent W hW root rv debug debug' fuel fuel' s s' sel t h h'
+
+end AnyOrderDecides
 
 end Pubgrub.C02
